@@ -140,7 +140,8 @@ func init() {
 			prefixFilter(c.rule("R15", ruleR15), "R15", "LINKED: LinkedHashMap table ↔ order list", 5, "R15a:maps/linkedhashmap", "R15b:maps/linkedhashmap", "R15c:maps/linkedhashmap", "R15w:maps/linkedhashmap", "R15d:maps/linkedhashmap"),
 			c.rule("R16", ruleR16), prefixFilter(c.rule("R24", ruleR24), "R24", "HASH: HashMap is the Go map", 5, "R24:maps/hashmap"), rolesFor(c, "C01"),
 			prefixFilter(c.rule("R21b", ruleR21b), "R21b", "B-tree: rebalance is keyed by the node's own key", 1, "R21b:btree.rebalance-key"),
-			prefixFilter(c.rule("R13", ruleR13), "R13", "ORDER: comparator-driven descents use one orientation and the full verdict", 10, "R13a:"), c.rule("R32", ruleR32), c.rule("R34", ruleR34), c.rule("R28", ruleR28), c.rule("R44", ruleR44), c.rule("R36", ruleR36), c.rule("R37", ruleR37))
+			prefixFilter(c.rule("R13", ruleR13), "R13", "ORDER: comparator-driven descents use one orientation and the full verdict", 10, "R13a:"), c.rule("R32", ruleR32), c.rule("R34", ruleR34), c.rule("R28", ruleR28), c.rule("R44", ruleR44), c.rule("R36", ruleR36), c.rule("R37", ruleR37),
+			prefixFilter(c.rule("R21", ruleR21), "R21", "UNLINK: every path of the red-black Remove that found the key unlinks a node; the child that replaces the root is made black", 1, "R21:rbt.Remove"))
 	}}
 	properties["C02"] = propDef{run: func(c *Ctx) *PropertyRun {
 		return pr("other", "Decided: (R13a) all 10 comparator-driven descents relate probe and stored key with one orientation (less → left/low, greater → right/high, equal → found); (R13b) keys are never compared with Go operators in comparator-ordered packages; (R20) Min/Max/Floor/Ceiling/Values/Keys delegate to the matching tree operation and (R38 unpack) return the found node's own key and value with true, the zero triple with false; (R10) Floor↔Ceiling, Left↔Right, Min↔Max, iterator Next↔Prev, rotations and fix-up arms are mirror images under μ. (R34) the three rotation primitives (red-black rotateLeft/rotateRight with replaceNode expanded, the AVL tree's direction-parameterised rotate in both directions) are replayed over a symbolic heap on every path: the in-order sequence of the rotated subtree is the same before and after and it has exactly one new root. Not decided: that splits/merges/borrows of the B-tree and the successor/predecessor swaps of Remove preserve the in-order sequence; sortedness of Keys() as such; B-tree per-node binary-search bounds; behaviour under a comparator that is not a strict weak order."+notBehaviour,
@@ -148,8 +149,8 @@ func init() {
 			prefixFilter(c.rule("R21b", ruleR21b), "R21b", "B-tree: rebalance is keyed by the node's own key", 1, "R21b:btree.rebalance-key"))
 	}}
 	properties["C03"] = propDef{run: func(c *Ctx) *PropertyRun {
-		return pr("other", "Decided: (R5a) every use of an index parameter of Get/Remove/Insert/Set/Swap on the three lists is dominated by withinRange(index)==true; (R5b) with an out-of-range index nothing is written except the documented append (a call to Add guarded by index == size); (R23w) withinRange ≡ 0 <= i < Size() on all three; (R7) an empty variadic list leaves no nil pointer to dereference; (R12b,c,e) the linked lists' size counters move only with allocate-and-link / guarded unlink; (R23s) Sort = SortFunc(Values(), comparator) then Clear; Add; (R23c) Contains(xs...) exactness; (R20) Append ≡ Add; (R30) the array list's length — its Size() — is replayed symbolically through every method: Add/Insert grow it by exactly len(values), Remove shrinks it by one, growBy(n) by n, resize(l, c) sets l, shrink/Sort/Swap/Set keep it, Clear zeroes it (reallocation thresholds cannot pad or truncate the sequence); (R33) every index-driven pointer walk of the linked lists keeps pos(pointer) = counter + d as a loop invariant (first ↦ 0, last ↦ size-1, next/prev ↦ ±1), walks from the head and from the tail land on the same positions relative to the index, and one pointer lands exactly on it; (R38) Swap exchanges the two requested positions crosswise with both values read first, Prepend's head insertion runs over the values from the last to the first, the array list's Insert splices (old contents, index, values), IndexOf reports the position it matched; (R39) a path that unlinks one element either moves first/last or knows by comparison that the removed element is not that end; (R40) the array list's contents are replayed as a symbolic sequence through every exported method, helpers expanded in place: Add leaves old ++ values, Insert old[:i] ++ values ++ old[i:], Remove old[:i] ++ old[i+1:], Set replaces slot i (or appends at i == len), Clear leaves nothing and every other method leaves the sequence alone — positions compared by linear arithmetic over the path's range checks; (R2b) no list retains a slice its caller handed in (Add/Insert/New copy the values: the element at an index changes only through the list); (R1) the reading operations write nothing (a Get that answers from a cursor remembered by an earlier Get is not the sequence the mutators left). Not decided: that pointer surgery in the linked Insert/Remove yields the spliced sequence; traversal-direction arithmetic; array-list grow/shrink thresholds; IndexOf results."+notBehaviour,
-			c.rule("R5", ruleR5), c.rule("R7", ruleR7), c.rule("R25", ruleR25), c.rule("R27", ruleR27), c.rule("R30", ruleR30), c.rule("R40", ruleR40), c.rule("R33", ruleR33), c.rule("R39", ruleR39), prefixFilter(c.rule("R38", ruleR38), "R38", "LISTOPS: Swap exchanges crosswise, Prepend keeps the passed order, Insert splices at the index, IndexOf reports where it found the value", 8, "R38:swap:", "R38:prepend:", "R38:indexof:", "R38:insert:"),
+		return pr("other", "Decided: (R5a) every use of an index parameter of Get/Remove/Insert/Set/Swap on the three lists is dominated by withinRange(index)==true; (R5b) with an out-of-range index nothing is written except the documented append (a call to Add guarded by index == size); (R23w) withinRange ≡ 0 <= i < Size() on all three; (R7) an empty variadic list leaves no nil pointer to dereference; (R12b,c,e) the linked lists' size counters move only with allocate-and-link / guarded unlink; (R23s) Sort = SortFunc(Values(), comparator) then Clear; Add; (R23c) Contains(xs...) exactness; (R20) Append ≡ Add; (R30) the array list's length — its Size() — is replayed symbolically through every method: Add/Insert grow it by exactly len(values), Remove shrinks it by one, growBy(n) by n, resize(l, c) sets l, shrink/Sort/Swap/Set keep it, Clear zeroes it (reallocation thresholds cannot pad or truncate the sequence); (R33) every index-driven pointer walk of the linked lists keeps pos(pointer) = counter + d as a loop invariant (first ↦ 0, last ↦ size-1, next/prev ↦ ±1), walks from the head and from the tail land on the same positions relative to the index, and one pointer lands exactly on it; (R38) Swap exchanges the two requested positions crosswise with both values read first, Prepend's head insertion runs over the values from the last to the first, the array list's Insert splices (old contents, index, values), IndexOf reports the position it matched; (R39) a path that unlinks one element moves first/last exactly when the removed element is that end (a != comparison forbids the move, == demands it), and a path that links a new element into an empty list sets both ends; (R33) no walk starts at nil; (R23s) Sort leaves without sorting only a list of at most one element; (R44) no path reads or writes through the nil constant; (R40) the array list's contents are replayed as a symbolic sequence through every exported method, helpers expanded in place: Add leaves old ++ values, Insert old[:i] ++ values ++ old[i:], Remove old[:i] ++ old[i+1:], Set replaces slot i (or appends at i == len), Clear leaves nothing and every other method leaves the sequence alone — positions compared by linear arithmetic over the path's range checks; (R2b) no list retains a slice its caller handed in (Add/Insert/New copy the values: the element at an index changes only through the list); (R1) the reading operations write nothing (a Get that answers from a cursor remembered by an earlier Get is not the sequence the mutators left). Not decided: that pointer surgery in the linked Insert/Remove yields the spliced sequence; traversal-direction arithmetic; array-list grow/shrink thresholds; IndexOf results."+notBehaviour,
+			c.rule("R5", ruleR5), c.rule("R7", ruleR7), c.rule("R25", ruleR25), c.rule("R27", ruleR27), c.rule("R30", ruleR30), c.rule("R40", ruleR40), c.rule("R33", ruleR33), c.rule("R39", ruleR39), c.rule("R45", ruleR45), prefixFilter(c.rule("R38", ruleR38), "R38", "LISTOPS: Swap exchanges crosswise, Prepend keeps the passed order, Insert splices at the index, IndexOf reports where it found the value", 8, "R38:swap:", "R38:prepend:", "R38:indexof:", "R38:insert:"),
 			prefixFilter(c.rule("R12", ruleR12), "R12", "SIZE: linked-list counters", 6, "R12b:lists/", "R12c:lists/", "R12e:lists/"),
 			prefixFilter(c.rule("R23", ruleR23), "R23", "LISTS: Contains, Sort, withinRange of the three lists", 9, "R23c:lists/", "R23s:lists/", "R23w:lists/"),
 			prefixFilter(c.rule("R2b", ruleR2b), "R2b", "OWNED: a list keeps no slice a caller handed in (an element at index i changes only through the list)", 12, "R2b:lists/"),
@@ -188,7 +189,7 @@ func init() {
 			}, "arraylist")...)
 	}}
 	properties["C07"] = propDef{run: func(c *Ctx) *PropertyRun {
-		return pr("other", "Decided: (R11) parent links mirror child links — a sentence of the statement itself: every child-link store in the three trees is paired with the parent-link store on the same path; (R21) the rebalancing machinery is wired on every path: red-black Put/Remove pass insertCase1/deleteCase1, the case chains hand over without dropping out; AVL balance factors are written only by the fix/rotation family, direct link changes report 'height changed', every reported change is answered by putFix/removeFix on the frame's own link and passed up, rotations are stored back; B-tree nodes that gained an entry go to split, nodes that lost one go to rebalance (or are a lending sibling / the collapsing root), borrow and merge move children with entries; (R32) insert/delete shifts and the split partition keep their indices consistent (no entry or child lost or duplicated); (R35) no path overwrites a field with a constant and then reads it back as the value to transfer (the colour hand-over `sibling.color = parent.color; parent.color = black` in the wrong order) — zero sites expected, guarded by a positive control; (R21 skeletons) the red-black insert/delete fix-ups with every case expanded: each path continues, absorbs or restructures only on the colour knowledge the algorithm prescribes, and Remove recolours the spliced child only at the root; (R42) after every rebalancing rotation of the AVL tree the stored balance factor of each touched node equals the height difference of its subtrees (symbolic-heap replay of putFix/removeFix in both directions, heights derived from the factors the path knows), and a fix-up after a recursive change under Children[i] is told the right side; (R43) every path of the expanded red-black insert / delete case chains, replayed over an abstract tree built from the nodes and colours the path looks at, leaves equal black heights on both sides of every node it touched, the region's black height as it was (deletion: as it was meant to be), no red node with a red child, and hands exactly the expected defect to the chain's entry when it recurses — given a red-black tree with the one defect the chain repairs. Not decided: every numeric claim as such — comparator-call bounds, height bounds, min/max occupancy, equal leaf depth (R42/R43 are the inductive steps for balance factors and colours, not the induction nor the bound that follows from it); these quantify over reachable shapes and no sound static argument in reach bounds them."+notBehaviour,
+		return pr("other", "Decided: (R11) parent links mirror child links — a sentence of the statement itself: every child-link store in the three trees is paired with the parent-link store on the same path; (R21) the rebalancing machinery is wired on every path: red-black Put/Remove pass insertCase1/deleteCase1, the case chains hand over without dropping out; AVL balance factors are written only by the fix/rotation family, direct link changes report 'height changed', every reported change is answered by putFix/removeFix on the frame's own link and passed up, rotations are stored back; B-tree nodes that gained an entry go to split, nodes that lost one go to rebalance (or are a lending sibling / the collapsing root), borrow and merge move children with entries; (R32) insert/delete shifts and the split partition keep their indices consistent (no entry or child lost or duplicated); (R35) no path overwrites a field with a constant and then reads it back as the value to transfer (the colour hand-over `sibling.color = parent.color; parent.color = black` in the wrong order) — zero sites expected, guarded by a positive control; (R21 skeletons) the red-black insert/delete fix-ups with every case expanded: each path continues, absorbs or restructures only on the colour knowledge the algorithm prescribes, and Remove recolours the spliced child only at the root; (R42) after every rebalancing rotation of the AVL tree the stored balance factor of each touched node equals the height difference of its subtrees (symbolic-heap replay of putFix/removeFix in both directions, heights derived from the factors the path knows), on the paths without rotation the factor moves by c (0 → c, -c → 0), a node leaning towards c is rotated, and the height signal is 'grew' only from 0 (putFix) / 'shrank' only from -c (removeFix); a fix-up after a recursive change under Children[i] is told the right side; (R43) every path of the expanded red-black insert / delete case chains, replayed over an abstract tree built from the nodes and colours the path looks at, leaves equal black heights on both sides of every node it touched, the region's black height as it was (deletion: as it was meant to be), no red node with a red child, and hands exactly the expected defect to the chain's entry when it recurses — given a red-black tree with the one defect the chain repairs. Not decided: every numeric claim as such — comparator-call bounds, height bounds, min/max occupancy, equal leaf depth (R42/R43 are the inductive steps for balance factors and colours, not the induction nor the bound that follows from it); these quantify over reachable shapes and no sound static argument in reach bounds them."+notBehaviour,
 			c.rule("R21", ruleR21), c.rule("R21b", ruleR21b), c.rule("R42", ruleR42), c.rule("R43", ruleR43), c.rule("R11", ruleR11), c.rule("R32", ruleR32), c.rule("R35", ruleR35), c.rule("R37", ruleR37), controlFor(c, "R35"))
 	}}
 	properties["C08"] = propDef{run: func(c *Ctx) *PropertyRun {
@@ -283,7 +284,7 @@ func init() {
 			}), controlFor(c, "R2a", "R2b", "R2c"))
 	}}
 	properties["C17"] = propDef{run: func(c *Ctx) *PropertyRun {
-		return pr("other", "Decided: (R3) no library function can reach fmt.Print*/print/println/log/os.Stdout/os.Stderr — complete for the silence clause; (R4) explicit panics/exits exist only in the two documented constructors, guarded by the documented bound — complete for explicit panics; (R5a) every index parameter of the three lists is range-checked before use; (R6) a Go-map field that is assigned to can never be nil; (R7) an empty variadic list leaves no nil pointer to dereference; (R8a) the JSON decoder never writes live container state (it cannot corrupt it into a panicking one); (R19b-wrap/index) in every method of the ring, loaders included, start and end are only reset to 0 or advanced with their wrap, and the ring slice is indexed only by them or modulo the capacity — no index can leave the slice; (R31) the arbitrary byte string given to the 42 loaders is only handed to the standard library or another loader, never indexed or sliced by library code. Not decided: implicit panics that depend on heap-shape invariants (nil sibling in deleteCase*, Children[index] in the B-tree — a generic may-be-nil analysis drowns in false alarms there and a sound one needs the tree invariants); termination of the loops. Inherited: an operation on an inconsistent state dereferences nil or indexes out of range — the structural clauses that keep every container and iterator consistent (C01, C03–C06, C08–C10) are part of this check."+notBehaviour,
+		return pr("other", "Decided: (R3) no library function can reach fmt.Print*/print/println/log/os.Stdout/os.Stderr — complete for the silence clause; (R4) explicit panics/exits exist only in the two documented constructors, guarded by the documented bound — complete for explicit panics; (R5a) every index parameter of the three lists is range-checked before use; (R6) a Go-map field that is assigned to can never be nil; (R7) an empty variadic list leaves no nil pointer to dereference; (R8a) the JSON decoder never writes live container state (it cannot corrupt it into a panicking one); (R19b-wrap/index) in every method of the ring, loaders included, start and end are only reset to 0 or advanced with their wrap, and the ring slice is indexed only by them or modulo the capacity — no index can leave the slice; (R31) the arbitrary byte string given to the 42 loaders is only handed to the standard library or another loader, never indexed or sliced by library code; (R44) the result of a helper that answers nil exactly for a nil argument (maximumNode) is dereferenced only where the argument is known non-nil, and no path reads or writes through the nil constant; (R38 swap) the linked lists' pick-while-counting Swap is entered only knowing i != j (equal indices would send the walk off the end). Not decided: implicit panics that depend on heap-shape invariants (nil sibling in deleteCase*, Children[index] in the B-tree — a generic may-be-nil analysis drowns in false alarms there and a sound one needs the tree invariants); termination of the loops. Inherited: an operation on an inconsistent state dereferences nil or indexes out of range — the structural clauses that keep every container and iterator consistent (C01, C03–C06, C08–C10) are part of this check."+notBehaviour,
 			inherited(c, []*RuleResult{
 				c.rule("R3", ruleR3), c.rule("R4", ruleR4), c.rule("R5", ruleR5), c.rule("R6", ruleR6), c.rule("R7", ruleR7),
 				prefixFilter(c.rule("R8", ruleR8), "R8", "LOADER: the decoder never targets live state (R8a)", 14, "R8a:"), prefixFilter(c.rule("R21b", ruleR21b), "R21b", "AVL direction arguments / child indices are 0/1, ±1", 1, "R21b:avl.directions"),
